@@ -110,12 +110,31 @@ func (sandbox *SSHSandbox) Run(ctx app.IOContext) (err error) {
 func (sandbox *SSHSandbox) initSequence(envs commservices.Environments) (reader io.Reader, err error) {
 	var (
 		initCode = "\nset -e\nset +x\n"
-		eofTag   = "EOF" + varutil.RandString(10, varutil.UpperAlphaBytes)
+		values   = envs.All()
+		eofTag   = newEOFTag(values)
 	)
-	for key, value := range envs.All() {
-		initCode += key + "=$(cat <<" + eofTag + "\n" + value + "\n" + eofTag + "\n)\n"
+	for key, value := range values {
+		// the quoted delimiter disables all expansions inside the here-document
+		initCode += key + "=$(cat <<'" + eofTag + "'\n" + value + "\n" + eofTag + "\n)\n"
 		initCode += "export " + key + "\n"
 	}
 	initCode += sandbox.entrypoint + "\n"
 	return strings.NewReader(initCode), nil
+}
+
+// newEOFTag return a random here-document terminator which is not contained in any value
+func newEOFTag(values map[string]string) (eofTag string) {
+	for {
+		eofTag = "EOF" + varutil.RandString(10, varutil.UpperAlphaBytes)
+		collision := false
+		for _, value := range values {
+			if strings.Contains(value, eofTag) {
+				collision = true
+				break
+			}
+		}
+		if !collision {
+			return eofTag
+		}
+	}
 }
